@@ -88,7 +88,9 @@ static void op_ep2_param(int argc, char **argv) {
 	fprintf(OUT, " n="); raw_print(n->dp, n->used, 0);
 	fprintf(OUT, " h="); raw_print(h->dp, h->used, 0);
 	fprintf(OUT, " n1="); raw_print(pn->dp, pn->used, 0);
-	fprintf(OUT, " opta=%d optb=%d ctmap=%d\n", ep2_curve_opt_a(), ep2_curve_opt_b(), ep2_curve_is_ctmap());
+	fprintf(OUT, " opta=%d optb=%d ctmap=%d", ep2_curve_opt_a(), ep2_curve_opt_b(), ep2_curve_is_ctmap());
+	/* window width of the variable-base routines, comb depth of the fixed-base routines, field size (recoding capacities), GLS dispatch */
+	fprintf(OUT, " width=%d depth=%d fpbits=%d endom=%d\n", RLC_WIDTH, RLC_DEPTH, RLC_FP_BITS, ep_curve_is_endom() ? 1 : 0);
 }
 
 /* e2b <op> <alias> <P> <Q> */
